@@ -189,7 +189,7 @@ Proof. split; [exact CGV.Compose.TextCutExamples.ea_string_text|exact CGV.Compos
 
 (** "wherever the cuts are placed, however each fragment's SMILES is written and in whatever order the base graph lists
     its nodes" (Compose/AnyCut.v, TextIso.v).  [same_mol C1 C2]: two cuts of ONE molecule - same atoms with the same
-    payload but `hcount` (the template's, which depends on the cut placement), same bond list, same atom set; partitions,
+    payload but `hcount` (the template's, which depends on the cut placement), same bonds (ends and orders; labels and descriptor kinds may differ), same atom set; partitions,
     order of the parts, order of the atoms inside a part (start atom, branch order) and descriptor orders are free.
     Graph level: the returned molecules of two whole all-atom resolve steps on such cuts are isomorphic by the explicit map
     [iso].  Text level: two STRINGS describing such cuts ([written]: the hypotheses of C01_text_level_skeleton as a record,
@@ -231,7 +231,7 @@ Definition C01_same_mol_test_sound := CGV.Compose.TextIso.same_molb_sound.
 Definition C01_written_test_sound := CGV.Compose.TextIso.writtenb_sound.
 Definition C01_same_mol_of_pperm := CGV.Compose.AnyCut.same_mol_of_pperm.
 (** non-vacuity: ethyl acetate as {[#A][#B][#C]}.{#A=O=C(C)[$a],#B=[$a]O[>b],#C=[<b]CC} and as
-    {[#Y][#X]}.{#X=CC(=O)O[>b],#Y=[<b]CC}: all hypotheses hold; both resolve() of the model return with the identity
+    {[#Y][#X]}.{#X=CC(=O)O[$z],#Y=[$z]CC}: all hypotheses hold; both resolve() of the model return with the identity
     transcript and the map (not the identity) preserves adjacency, orders and elements of the 14-atom molecules *)
 Definition C01_text_returned_iso_nonvacuous := CGV.Compose.TextIsoExamples.ea_text_returned_iso.
 Definition C01_text_returned_iso_hypotheses := CGV.Compose.TextIsoExamples.ea_two_descriptions.
